@@ -198,12 +198,15 @@ Definition retry_task (reuse : bool) (h : Z) (s : state) : state :=
        else send_request true s.
 
 (* start_fetching_next_page (after the QueryExhausted test) *)
+(* _make_query_plan(); _event.clear(); _final_result = _NOT_SET; _final_exception = None  (+ ghosts of the new page fetch) *)
+Definition page_reset (pl : list Z) (s : state) : state :=
+  set_tfired false (set_pstart (now s) (set_pairs (map (fun _ => mkPair [] []) (pairs s))
+    (set_fexc None (set_fres None (set_event false (set_plan pl s)))))).
+(* pf: _cancel_timer(); _timer = None; _start_time = time.time() *)
+Definition page_timer_reset (s : state) : state :=
+  if pf then set_start (now s) (set_cur_timer None (cancel_timer s)) else s.
 Definition next_page (pl : list Z) (s : state) : state :=
-  let s := set_plan pl s in
-  let s := set_tfired false (set_pstart (now s) (set_pairs (map (fun _ => mkPair [] []) (pairs s))
-             (set_fexc None (set_fres None (set_event false s))))) in
-  let s := if pf then set_start (now s) (set_cur_timer None (cancel_timer s)) else s in
-  send_request true (start_timer s).
+  send_request true (start_timer (page_timer_reset (page_reset pl s))).
 
 Definition add_cb (s : state) : state :=
   set_pairs (pairs s ++ [mkPair (match fres s with Some v => [v] | None => [] end)
